@@ -137,6 +137,12 @@ def check_step(step, pre, post, policy, viol, stats, hist):
                 stats["postponed_discarded"] += 1
             if pp1.get(k):
                 viol.append(("F5 held-back-after-distrust", "decisions held back for sender key %s survive the distrust of that key" % k, w))
+    # F5 (continued): a distrust decision that is applied in this step discards what that key's holder had sent before - also when the key's
+    # level does not change because it was distrusted already
+    for (o, k, t) in trigger:
+        if not t and pp1.get(k) and lv1.get(o + "|" + k) == MAN_DIS:
+            if pp0.get(k):
+                viol.append(("F5 held-back-after-repeated-distrust", "decisions held back for sender key %s survive a (repeated) distrust of that key" % k, w))
     # nothing may be added to the postponed store in such a step except by an authenticated-sender message (none: they apply immediately)
     for s in pp1:
         new = pp1[s] - pp0.get(s, set())
@@ -196,6 +202,26 @@ def small_alphabet():
     return A
 
 
+def holdback_chains():
+    """5-step chains: a sender key S is distrusted, S's holder sends decisions (held back), S is distrusted again or authenticated, by hand or
+    by a message of an authenticated own device, and authenticated at the end: only what survived may fire"""
+    D = {"op": "manual", "owner": OWN, "auth": ["a2"], "distrust": []}
+    out = []
+    for (sj, sk, other, third) in ((BOB + "/r", "b1", "b2", "b3"), (CAROL + "/x", "c1", "c2", "c2")):
+        so = bare(sj)
+        man_dis = {"op": "manual", "owner": so, "auth": [], "distrust": [sk]}
+        man_auth = {"op": "manual", "owner": so, "auth": [sk], "distrust": []}
+        msg_dis = {"op": "msg", "from": OWN + "/dev2", "senderKey": "a2", "owners": [{"jid": so, "trusted": [], "distrusted": [sk]}]}
+        msg_auth = {"op": "msg", "from": OWN + "/dev2", "senderKey": "a2", "owners": [{"jid": so, "trusted": [sk], "distrusted": []}]}
+        for first in ([], [man_dis], [msg_dis]):
+            for content in ({"trusted": [other], "distrusted": []}, {"trusted": [], "distrusted": [other]}, {"trusted": [other], "distrusted": [third]} if third != other else {"trusted": [other], "distrusted": []}):
+                held = {"op": "msg", "from": sj, "senderKey": sk, "owners": [dict(content, jid=so)]}
+                for again in ([], [man_dis], [msg_dis], [man_dis, msg_dis]):
+                    for end in ([man_auth], [msg_auth], []):
+                        out.append([D] + first + [held] + again + end)
+    return out
+
+
 def worker(args):
     wid, nrandom, exhaustive_slice = args
     binary = vf.build_harness("atm")
@@ -238,6 +264,9 @@ def main(tier, replay=None):
         for combo in itertools.product(A, repeat=d):
             for policy in ("toakafa", "none"):
                 ex.append((list(combo), policy))
+    for ch in holdback_chains():
+        for policy in ("toakafa", "none"):
+            ex.append((ch, policy))
     nrandom = (20000 if tier == "quick" else 1000000) // W
     slices = [ex[w::W] for w in range(W)]
     with ProcessPoolExecutor(max_workers=W) as pool:
@@ -250,7 +279,7 @@ def main(tier, replay=None):
         sample = smp
     cov = {"evaluations": stats["steps"], "distinct_nontrivial": stats["applied"] + stats["postponed_added"] + stats["postponed_fired"] + stats["postponed_discarded"],
            "rule": "universe: own account + 2 contacts, 7 keys + 3 initially unknown keys, both security policies; exhaustive words of length <= %d over a %d-step alphabet x 2 policies (%d histories) plus random histories of length <= 25 "
-                   "with random initial levels; every step is judged by frame conditions F1-F5 over the full state before/after; distinct_nontrivial = level changes explained + decisions held back + fired + discarded" % (depth, len(A), len(ex)),
+                   "with random initial levels; 216 hold-back chains (own device authenticated; a contact key distrusted or not; its holder's decisions held back; the key distrusted again / authenticated by hand or by the own device's message; authenticated at the end) x 2 policies; every step is judged by frame conditions F1-F5 over the full state before/after; distinct_nontrivial = level changes explained + decisions held back + fired + discarded" % (depth, len(A), len(ex)),
            "exhaustive_small_depth": depth, "observed": dict(stats), "samples": [sample]}
     floors = {"applied": stats["applied"] > 0, "held_back": stats["postponed_added"] > 0, "fired": stats["postponed_fired"] > 0, "discarded": stats["postponed_discarded"] > 0,
               "unauth_sender": stats["kind:unauthenticated-sender"] > 0, "own_device": stats["kind:own-device"] > 0}
